@@ -11,4 +11,34 @@ CHECKS = {
                 "<=5 / <=7 lexemes over the 12 cursor-rewind lexemes are scanned by the real extension and checked against the tiling law.",
         "note": "alphabet chosen from the re2c rules; longer inputs and characters outside the alphabet are not covered; scanner rebuilt from _uscan.cc (re2c not installed, _uscan.re is not consulted)",
     },
+    "C16": {
+        "engine": "chub-bfs", "category": "model_checking", "design_ref": "DESIGN.md §3 C16",
+        "technique": "explicit-state BFS over event-loop iterations of the real queue server under a controlled gevent hub; conservation invariant + drain probe in every state",
+        "text": "Explicit-state exploration of the implementation itself: real workq/QPlugin/handle_client on in-memory sockets, controlled hub, every ordered "
+                "set of <=K coinciding arrivals per event-loop iteration, every waiter choice, canonical-state de-duplication (worker permutation x channel swap). "
+                "In every quiescent state: each accepted unfinished job is in exactly one place (white box) and a fresh worker can drain exactly those jobs (black box).",
+        "note": "quick: total cost <=8 (events + loop runs), K=2, 3 jobs; thorough: cost <=8, K=3, 4 jobs, two timeouts, under a time cap (evidence states the last completed level). Assumes gevent's FIFO callback order; the hub is virtual (no libev, no sockets).",
+    },
+    "C17": {
+        "engine": "chub-bfs", "category": "model_checking", "design_ref": "DESIGN.md §3 C17",
+        "technique": "same explicit-state BFS; lock-step comparison of every RPC return and every quiescent state with a sequential reference model",
+        "text": "Same exploration as C16 over the alphabet extended with re-add and wait; every atomic step of the linearised trace is fed to a boring reference "
+                "model (mc/ref/queue_ref.py) which predicts each return value: channel eligibility, never a finished job, (priority, serial) order, first-of-finish/kill/timeout wins, "
+                "wait released exactly when finished, idempotent add, counters (getstats/qinfo observed in every state).",
+        "note": "bounds as C16; the reference model is given the implementation's nondeterministic waiter choice, it never demands a particular one.",
+    },
+    "C18": {
+        "engine": "chub-bfs", "category": "model_checking", "design_ref": "DESIGN.md §3 C18",
+        "technique": "same BFS with a save/restore transition (real pickle path) enabled in every quiescent state, exploration continues after it",
+        "text": "The restart step is Main.savedb() to a scratch directory and Main.loaddb() in a fresh Main with all connections dropped; enabled in every state (<=1 quick / <=2 thorough per history); "
+                "after it the C16 invariants/drain probe (order included) and the C17 reference model stay armed.",
+        "note": "server stopped between event-loop iterations only; per-channel outcome counters are not part of the saved state and are not compared after a restart.",
+    },
+    "C19": {
+        "engine": "chub-bfs", "category": "model_checking", "design_ref": "DESIGN.md §3 C19",
+        "technique": "BFS over job histories of one collection on the real nserve.Application bound in-process to the real queue; status compared with job objects in every state; exhaustive filename enumeration",
+        "text": "Real do_render/do_render_status with the queue proxy bound in-process to the real queue server world; events render/pull/setinfo/finish(4 result shapes, error)/kill/timeout/watchdog(ttl)/EOF; "
+                "in every reachable state the status for both writers and an unknown collection is compared with the real job objects. Content-Disposition: all names of <=3/<=4 symbols over 24 printable symbols.",
+        "note": "quick: 6 events deep (cost 12), one render per writer; thorough: 8 events, two renders per writer, time-capped. Header-safety = ASCII token without control/space/;,\" plus RFC 5987 value decoding to the stripped name.",
+    },
 }
